@@ -11,6 +11,14 @@ Leg S2C : TLC -simulate behaviours (wide alphabets, 1 tick = 1 s and 1/4 s) are 
           the virtual-time asyncio loop with a scripted fake client.
 Leg C2S : every recorded run (S2C + seeded random dyadic + seeded random millisecond/non-dyadic runs) is validated by TLC
           against TraceClientLoop.tla (L1 = C04_* clauses on the record; L2 = the record is the specification's step).
+          + edge runs: 1 tick = 1/1024 s or 1/2048 s, a deterministically throttled client that comes back within the last ticks
+            (fractions of a millisecond) before / at / just after its next scheduled time (also in leg M and in the simulated
+            behaviours through NearOffsets: service time = target interval - 0..3 ticks);
+          + element runs: a `parallel` element (ramp-up over several sub-tasks, or over-committed: clients cap < sum of the
+            sub-tasks' clients) is allocated by the REAL Allocator, cut into steps by the REAL ClientAllocations and executed
+            by the REAL AsyncIoAdapter (all clients of a step concurrently on one virtual-time loop, shared Sampler); every
+            (client, task allocation) gives one recorded run whose client index / total / sub-task clients are DERIVED in TLA+
+            from the element's declaration (Placement) and whose client is the one whose ES client executed the requests.
 """
 from .. import clientloop, tlc
 
@@ -32,7 +40,9 @@ def run(ctx, out):
         "the first request of a throttled task (and every request before the first successful one) is scheduled at 0 by the code and then has latency = service time: named in the model (sched = 0), not flagged; L1 requires latency-from-schedule only for requests with a scheduled time > 0",
         "a task's runner reports one unit throughout a run; error outcomes are elasticsearch ApiError (400), plain TransportError and ConnectionTimeout with on-error=continue; fatal ConnectionError and on-error=abort are not covered",
         "every request performs exactly one wire request that sets request_start and request_end (nested / missing request contexts are C18)",
-        "loop controls with an unbounded iteration count (parameter source decides the end), runner-provided completion/progress and cancellation are outside the model",
+        "'its client' of a sample = the client whose Elasticsearch client object executed the request (the id AsyncIoAdapter passes to EsClientFactory.create_async); in an over-committed parallel element that is client idx % cap",
+        "element runs: samples are attributed to the executor coroutine (asyncio task) that called Sampler.add; the clients of one step share the virtual clock, no external completion, no Poisson schedule, runner unit = target unit",
+        "runner completion API (cfg.rc): completed becomes true at the k-th call, percent_completed stays None; loop controls with an unbounded iteration count, runner-provided progress values and cancellation are outside the model",
     ]
     cov = clientloop.run_property(
         ctx,
